@@ -96,7 +96,9 @@ impl G {
                 if noc_done {
                     // finish over CASE on the fail-safe's fabric
                     if let Some(s) = self.sess_where(v, |s| s.1 == 'c' && s.2 == fab && !s.3) {
-                        if self.r.chance(1, 4) || v.fault_pending {
+                        // (a fault that would hit the SECOND write of CommissioningComplete is the open
+                        // finding C08-complete-partial-commit: left to the corpus)
+                        if self.r.chance(1, 4) || v.fault_in >= 2 {
                             return self.write_op(s);
                         }
                         return format!("complete {}", s);
@@ -111,11 +113,7 @@ impl G {
                     return format!("cest {} {} {}", fab, self.node(), self.next_rid());
                 };
                 let is_case = v.sessions.iter().any(|x| x.0 == s && x.1 == 'c');
-                if is_case && self.deferred_case_write && flags & F_UPD_CSR == 0 && flags & (F_ADD_CSR | F_ROOT) != 0 {
-                    // open finding C08-failsafe-context-switch is left to the corpus: end this context
-                    return format!("arm {} 0", s);
-                }
-                if is_case && (self.r.chance(2, 3) || self.deferred_case_write) && flags & (F_ADD_CSR | F_ROOT) == 0 {
+                if is_case && self.r.chance(2, 3) && flags & (F_ADD_CSR | F_ROOT) == 0 {
                     // UpdateNOC flow, or plain network / ACL work under the fail-safe
                     if flags & F_UPD_CSR == 0 {
                         if self.r.chance(1, 3) {
@@ -180,7 +178,7 @@ impl G {
             20..=27 => self.write_op(s),
             28..=29 => format!("rmnet {} {}", s, self.r.range(1, 3)),
             30..=34 => {
-                if v.fault_pending {
+                if v.fault_in >= 2 {
                     "poll".into()
                 } else {
                     format!("complete {}", s)
@@ -207,7 +205,7 @@ impl G {
             83..=85 => "flush".into(),
             86..=89 => "restart".into(),
             90..=92 => {
-                if c07 {
+                if c07 && self.r.chance(1, 2) {
                     "poll".into()
                 } else {
                     format!("kvfail {}", self.r.range(1, 2))
